@@ -36,6 +36,7 @@ BeginMarks(s, t) ==
      \cup If(\E i \in R : Acc(s.ent.po[i]) + Rej(s.ent.po[i]) > Len(P.signers), "tally:more-decisions-than-signers")
      \cup If(Cardinality({ i \in R : t.ent.po[i].st # "raised" }) >= 2, "tally:two-closed")
      \cup If(Cardinality(A) >= 2, "complete:two")
+     \cup If(\E i, j \in A : i # j /\ s.ent.po[i].pur = s.ent.po[j].pur, "complete:two-same-purchaser")
      \cup If(A # {} /\ \E i \in R : t.ent.po[i].st = "accepted", "complete+accept-same-block")
      \cup If(\E i \in A : s.ent.locked[s.ent.po[i].pur] > 0, "complete:on-top-of-locked")
      \cup If(\E i \in A : s.ent.spent[s.ent.po[i].pur] > 0, "complete:after-spending")
@@ -126,6 +127,10 @@ StrTxMarks(s, ev, t, ok) ==
      \cup If(ok /\ AnyMsg(ev, LAMBDA m : m.t = "STopUp" /\ HasS(m) /\ X(m).dep > 0 /\ s.time < X(m).dzt /\ s.time - X(m).last >= 1000), "topup:live-with-elapsed-seconds")
      \cup If(ok /\ AnyMsg(ev, LAMBDA m : m.t = "STopUp" /\ HasS(m) /\ X(m).dep > 0 /\ s.time >= X(m).dzt), "topup:expired-with-remainder")
      \cup If(ok /\ AnyMsg(ev, LAMBDA m : m.t = "STopUp" /\ HasS(m) /\ X(m).dep = 0), "topup:drained")
+     \cup If(ok /\ AnyMsg(ev, LAMBDA m : m.t \in {"STopUp", "SClaim", "SRate", "SCancel"} /\ HasS(m) /\ X(m).dep > 0 /\ s.time < X(m).dzt
+                                       /\ s.time \div 1000 = X(m).dzt \div 1000), "stream:op-in-the-second-of-the-zero-time-before-it")
+     \cup If(ok /\ AnyMsg(ev, LAMBDA m : m.t \in {"STopUp", "SClaim", "SRate", "SCancel"} /\ HasS(m) /\ X(m).dep > 0 /\ s.time > X(m).dzt
+                                       /\ s.time \div 1000 = X(m).dzt \div 1000), "stream:op-in-the-second-of-the-zero-time-after-it")
      \cup If(ok /\ AnyMsg(ev, LAMBDA m : m.t = "SCancel" /\ HasS(m) /\ X(m).dep > 0 /\ s.time < X(m).dzt /\ s.time - X(m).last >= 1000), "cancel:live-with-elapsed-seconds")
      \cup If(ok /\ AnyMsg(ev, LAMBDA m : m.t = "SCancel" /\ HasS(m) /\ X(m).dep > 0 /\ s.time >= X(m).dzt), "cancel:expired")
      \cup If(ok /\ AnyMsg(ev, LAMBDA m : m.t = "SCancel" /\ HasS(m) /\ X(m).dep = 0), "cancel:drained")
@@ -148,13 +153,19 @@ GhostTxMarks(s, ev, t, ok) ==
      \cup If(AnyMsg(ev, LAMBDA m : m.t \in {"SCreate", "SClaim", "STopUp", "SRate", "SCancel"} /\ <<"str", SKey(m.receiver, m.sender), "-">> \in G),
              "ghost:stream-op-on-rolled-back-pair")
 
-EndMarks(s, t) ==
+EndMarks0(s, t) ==
      If(s.ent.p # t.ent.p /\ RaisedIdx(s) # {}, "params:enterprise-changed-with-raised-order")
   \cup If(s.ent.p # t.ent.p /\ AcceptedIdx(s) # {}, "params:enterprise-changed-with-accepted-order")
   \cup If(s.ent.p.signers # t.ent.p.signers /\ \E i \in RaisedIdx(s) : s.ent.po[i].dec # <<>>, "params:signers-changed-with-decided-order")
   \cup If(\E k \in {"wrk", "bcn"} : s[k].p # t[k].p /\ s[k].ch # <<>>, "params:registry-changed-with-registrations")
   \cup If(\E k \in {"wrk", "bcn"} : \E i \in DOMAIN s[k].ch : s[k].ch[i].limit > t[k].p.max /\ s[k].ch[i].limit <= s[k].p.max, "params:max-lowered-below-a-limit")
   \cup If(s.str.p # t.str.p /\ \E k \in DOMAIN s.str.s : s.str.s[k].dep > 0, "params:stream-fee-changed-with-funded-stream")
+
+DueProps(s) == { i \in DOMAIN s.aux.props : s.aux.props[i].end <= s.time }
+EndMarks(s, t) ==
+     If(\E i \in DueProps(s) : s.aux.props[i].yes /\ Len(s.aux.props[i].msgs) >= 2 /\ ~RunMsgs(s, s.aux.props[i].msgs, <<>>).ok
+                                /\ RunMsg(s, s.aux.props[i].msgs[1]).ok, "gov:proposal-rolled-back-after-first-message")
+  \cup EndMarks0(s, t)
 
 Marks(s, ev, t, ok) ==
   CASE ev.a = "BeginBlock" -> BeginMarks(s, t)
@@ -184,6 +195,8 @@ AllLabels == <<
   "create:reverse-direction-exists", "stream:two-ops-in-one-tx", "stream:multi-message-tx-fails",
   "ghost:registry-write-by-rolled-back-owner", "ghost:owner-write-on-reused-id", "ghost:registration-reuses-rolled-back-id",
   "ghost:decide-on-rolled-back-order-id", "ghost:raise-reuses-rolled-back-id", "ghost:stream-op-on-rolled-back-pair",
+  "gov:proposal-rolled-back-after-first-message", "complete:two-same-purchaser",
+  "stream:op-in-the-second-of-the-zero-time-before-it", "stream:op-in-the-second-of-the-zero-time-after-it",
   "params:enterprise-changed-with-raised-order", "params:enterprise-changed-with-accepted-order", "params:signers-changed-with-decided-order",
   "params:registry-changed-with-registrations", "params:max-lowered-below-a-limit", "params:stream-fee-changed-with-funded-stream" >>
 RegBase == 100      \* TLCSet/TLCGet registers RegBase + index
